@@ -92,7 +92,8 @@ def save_unit(fb, d, memo):
         f = t.get("fn", "")
         if f in fb.mir and any(c in fb.reachable_from([f]) for c in CREATORS):
             for i, a in enumerate(t["args"]):
-                if ("arg", dest) in fl.atoms(a, through_calls=False) and (i + 1) in path_params(fb, fb.mir[f]):
+                plumbing = lambda g: not g.split("<")[0].endswith(("::as_ref", "::deref", "::borrow", "::as_path", "::as_os_str")) and not g.endswith(("::as_ref", "::deref", "::borrow", "::as_path"))
+                if ("arg", dest) in fl.atoms(a, stop_calls=plumbing) and (i + 1) in path_params(fb, fb.mir[f]):
                     if any(tt.get("fn") == "std::fs::rename" for _, tt in fb.calls_in(fb.mir[f])):
                         return f, i + 1, (bi, t)
     return d, dest, None
